@@ -519,6 +519,13 @@ func TestC10(t *testing.T) {
 				}
 			}
 		}
+		if c.Weighted("c10.ecoWorld", 2, 1) == 1 {
+			c.Class("ecosystem-world")
+			if _, err := sim.EcosystemScript(h); err != nil {
+				c.Note("ecosystem script stopped: %v", err)
+			}
+			inv()
+		}
 		acts := map[string]func(){
 			"transfer": h.ActTransfer, "receive": h.ActReceive, "callABI": h.ActCallABI,
 			"intent": h.ActIntent, "intent2": h.ActIntent, "intent3": h.ActIntent, "intent4": h.ActIntent,
